@@ -209,6 +209,13 @@ def main():
         selftest = ST.run(a.repo, units=set(units))
         bad = [m for m in selftest if m.get('as_expected') is False]
         if bad: undecided.append(('selftest', 'mutation self-test: %s not as expected' % [m['mutant'] for m in bad]))
+    # hand-copied assumed contracts must still be the text the verifying unit proves (modular soundness guard, vx/crosscheck.py)
+    try:
+        from vx import crosscheck
+        xc_checked, xc_problems = crosscheck.run(UNITS, a.repo, spec_dir, only_units=set(units))
+        for pr in xc_problems: undecided.append(('crosscheck', pr))
+    except Exception as e:
+        xc_checked = []; undecided.append(('crosscheck', repr(e)))
     bounded_res = None
     if a.tier == 'thorough' and not violations and prop in ('C05', 'C10', 'C13', 'C16'):
         from vx import bounded
@@ -238,6 +245,7 @@ def main():
           'assumptions': sorted(set(trusted)) + assumptions}
     if kani_res: ev['coverage']['kani'] = [{k: v for k, v in h.items() if k != 'log'} for h in kani_res['harnesses']]
     if selftest is not None: ev['coverage']['mutation_selftest'] = selftest
+    ev['coverage']['assumed_contracts_compared_with_the_verified_text'] = xc_checked
     if bounded_res is not None: ev['coverage']['bounded_checks'] = [{k: v for k, v in bounded_res.items() if k != 'log'}]
     with open(os.path.join(a.out, prop + '.json'), 'w') as f: json.dump(ev, f, indent=1)
     for ln in sorted(set(known_lines)): print(ln)
